@@ -579,6 +579,10 @@ impl ClientToRelayMsg {
     }
 }
 
+#[cfg(all(kani, feature = "server"))]
+#[path = "/verif/kani/iroh_relay/relay.rs"]
+pub(crate) mod verif_kani;
+
 #[cfg(test)]
 #[cfg(feature = "server")]
 mod tests {
